@@ -46,7 +46,7 @@ func TestB2C05Type1Leak(t *testing.T) {
 				FromStream(s)
 			}
 			n := runtime.NumGoroutine()
-			for i := 0; i < 100 && n > base; i++ {
+			for i := 0; i < 2000 && n > base; i++ {
 				time.Sleep(5 * time.Millisecond)
 				n = runtime.NumGoroutine()
 			}
